@@ -758,7 +758,37 @@ func init() {
 }
 
 func (e *Exec) callStubByName(name string, recv Value, args []Value, c *ssa.CallCommon) Value {
+	if name == "cachewrite" {
+		// the write function of Context.CacheContext: the branch becomes the parent's state
+		cd := recv.(Opaque).Data.(*CtxData)
+		if cd.Bank != nil {
+			if cd.Parent != nil && cd.Parent.Bank != nil {
+				*cd.Parent.Bank = *cd.Bank
+			} else if e.path.bank != nil {
+				*e.path.bank = *cd.Bank
+			}
+		}
+		e.path.events = append(e.path.events, "cache-write")
+		return nil
+	}
 	panic(engineErr("callStubByName %s", name))
+}
+
+func init() {
+	stubs["(github.com/cosmos/cosmos-sdk/types.Context).CacheContext"] = func(e *Exec, fn *ssa.Function, args []Value) Value {
+		co, ok := args[0].(Opaque)
+		cd, ok2 := co.Data.(*CtxData)
+		if !ok || !ok2 || cd == nil {
+			panic(engineErr("CacheContext of an unmodelled context"))
+		}
+		child := &CtxData{BlockTime: cd.BlockTime, BlockHeight: cd.BlockHeight, Name: cd.Name, Parent: cd, Cached: true}
+		if e.path.bank != nil {
+			child.Bank = e.bankFor(args[0]).clone()
+		}
+		e.Notes["Context.CacheContext: the bank state is branched and reaches the parent only through the returned write function; KV stores behind a cache context are not modelled"] = true
+		cctx := Opaque{Kind: "ctx", Data: child}
+		return Tuple{cctx, &Func{Stub: "cachewrite", Recv: cctx}}
+	}
 }
 
 func (e *Exec) recordEvent(ev Iface) {}
